@@ -12,26 +12,7 @@ ALL = [f"C{i:02d}" for i in range(1, 34)]
 NOTE_COMMON = ("Trusted: Coq 8.16.1 kernel + vm_compute; no axioms of ours (Print Assumptions captured each run); "
                "the Python translators/harness; ")
 
-CLAIMS = {
-    "C26": dict(
-        text="Theorem over a model regenerated from the source on every run: every construction site of a coded VTL exception "
-             "(all sites of the tree, found by a Python-ast scan) uses a catalogued code and supplies every placeholder, hence for ALL "
-             "argument values construction yields a message (format_total is proved for unbounded templates/kwargs). A change that adds "
-             "a bad site or removes a catalogue entry/placeholder breaks C26_all_sites_ok; the check then constructs the real exception "
-             "at the failing site as the replay. Static by nature, which matches the property's quantifier (every raise site).",
-        note=NOTE_COMMON + "the static scanner (fail-closed on aliases/splats/non-literal codes); str.format modelled for plain {name} fields "
-             "(checked each run that the catalogue uses nothing else); run-time constructions observed are matched against the scan.",
-        technique="Coq proof over Gen/Errors.v regenerated by an ast translator (T-errors) + vm_compute reflection", ref="4 C26"),
-    "C11": dict(
-        text="The four promotion functions of the engine are evaluated on their ENTIRE finite domain (9x9x10x10 and 9x10x10 tuples) every "
-             "run; Coq proves (vm_compute reflection lifted by a completeness lemma) that a hand-written Gallina model equals those tables, "
-             "and, for all tuples: check agrees with promotion, acceptance = the documented implicit table of docs/data_types.rst (parsed "
-             "each run), result type is the documented one, and commutative registry operators are order-independent. Generic operator "
-             "classes are additionally driven at scalar/component/dataset level over the full grid. Finite domain => exhaustive = proof.",
-        note=NOTE_COMMON + "T-types dump translator (import + rst scanner); the commutative-token set {+,*,and,or,xor,=,<>}; operator classes "
-             "with their own validate overrides are outside the K part.",
-        technique="Coq proof by exhaustive reflection over regenerated function tables (T-types) + 3-level operator drive", ref="4 C11"),
-}
+CLAIMS = {p.stem: json.loads(p.read_text()) for p in sorted((VERIF / "harness" / "claims").glob("C*.json"))}
 
 NA_REASON = {
     "C23": "about the native C++ extension (no abort/crash/hang on arbitrary bytes, state in C++ globals); it cannot be compiled or "
